@@ -213,6 +213,18 @@ func EvalExpr(e gen.E, row env) gen.JV {
 			return a
 		}
 		return tri(LikeMatch(a.S, e.S))
+	case "index":
+		// l[i]: the i-th element, NULL when l is NULL or has no such element
+		a := arg(0)
+		if isNull(a) {
+			return a
+		}
+		i := 0
+		fmt.Sscanf(e.S, "%d", &i)
+		if i < 0 || i >= len(a.L) {
+			return gen.Null()
+		}
+		return a.L[i]
 	case "fn":
 		if e.S == "coalesce" {
 			for i := range e.Args {
@@ -244,6 +256,9 @@ func EvalExpr(e gen.E, row env) gen.JV {
 		case "ceil":
 			return gen.FromFloat(math.Ceil(a.Float()))
 		case "len":
+			if a.K == "list" {
+				return gen.Int(int64(len(a.L)))
+			}
 			return gen.Int(int64(len(a.S)))
 		case "upper":
 			return gen.Str(strings.ToUpper(a.S))
